@@ -13,4 +13,4 @@ for p in "$@"; do
   echo "$p exit=$e ${v:+[$(echo $v | grep -o 'no-failing-input-found')]} $what"
 done
 git -C /repo worktree remove --force $wt
-rm -rf /tmp/fast_ticc_verif_lean_* 2>/dev/null
+
